@@ -98,6 +98,8 @@ def tlc(module, cfg, workers=None, emit=True, simulate=None, timeout=1800, cover
                 f.write(txt)
         if depth_first:
             props.append('-Dtlc2.tool.queue.IStateQueue=StateDeque')
+        # bound the heap: several single-worker emission JVMs run side by side and the default (1/4 of RAM each) invites the OOM killer
+        props.append('-Xmx3g' if workers == 1 else '-Xmx12g')
         cmd = _java(props) + ['tlc2.TLC', '-workers', str(workers), '-metadir', os.path.join(tmp, 'meta'),
                               '-noGenerateSpecTE', '-config', cfgpath]
         if coverage and not simulate:
